@@ -4,6 +4,7 @@ import (
 	"fmt"
 	"go/token"
 	"go/types"
+	"os"
 	"strings"
 
 	"golang.org/x/tools/go/ssa"
@@ -89,28 +90,24 @@ func rulesReadNCBI(c *Ctx, r *Report, rd, ex *ssa.Function) {
 	se := newSymb(ex)
 	gap, _ := stepConstIn(c, "align", "Gap")
 	okStar := false
-	instrs(ex, func(in ssa.Instruction) {
-		rt, ok := in.(*ssa.Return)
-		if !ok {
-			return
+	for _, rc := range returnCases(se, ex) {
+		if len(rc.vals) != 2 {
+			continue
 		}
-		g := guardOf(se, rt.Block(), nil)
-		if strings.Contains(g, `("*" == P0)`) && !strings.Contains(g, `!("*" == P0)`) {
-			if k, ok := cInt(constVal(rt.Results[0])); ok && k == gap {
+		if strings.Contains(rc.guard, `("*" == P0)`) && !strings.Contains(rc.guard, `!("*" == P0)`) {
+			if k, ok := cInt(constVal(rc.vals[0])); ok && k == gap {
 				okStar = true
 			}
 		}
-	})
+	}
 	r.check(okStar, "STAR", fname(ex), "'*' is the gap", c.pos(ex.Pos()), fmt.Sprintf("the label \"*\" returns align.Gap (%d)", gap), "the label \"*\" does not return align.Gap")
 	// other labels return s[0]
 	okChar := false
-	instrs(ex, func(in ssa.Instruction) {
-		if rt, ok := in.(*ssa.Return); ok && isNilConst(rt.Results[1]) {
-			if se.expr(rt.Results[0]).String() == "P0[0]" {
-				okChar = true
-			}
+	for _, rc := range returnCases(se, ex) {
+		if len(rc.vals) == 2 && isNilConst(rc.vals[1]) && se.expr(rc.vals[0]).String() == "P0[0]" {
+			okChar = true
 		}
-	})
+	}
 	r.check(okChar, "STAR", fname(ex), "other labels are their byte", c.pos(ex.Pos()), "any other single-character label returns that character", "a single-character label other than \"*\" is not returned as its own byte")
 	// CELL: m[[2]byte{rowLabel, chars[j]}] = ParseFloat(values[j+1], 64), values[0] being the row label's text
 	okCell := false
@@ -218,18 +215,40 @@ func rulesReadNCBI(c *Ctx, r *Report, rd, ex *ssa.Function) {
 	r.check(okCell, "CELL", where, "score cell", c.pos(rd.Pos()), "the score stored under {row label, column label i} is ParseFloat(value i of the row, 64)", "the stored cell is not m[{rowLabel, chars[j]}] = ParseFloat(values[j+1], 64): "+cellWhy)
 	// COMMENT-RAW
 	okRaw := false
+	rawTest := func(fn *ssa.Function, sy *symb) {
+		instrs(fn, func(in ssa.Instruction) {
+			bo, ok := in.(*ssa.BinOp)
+			if !ok || bo.Op != token.EQL {
+				return
+			}
+			l := sy.expr(bo.X).String()
+			rr := sy.expr(bo.Y).String()
+			for _, pr := range [][2]string{{l, rr}, {rr, l}} {
+				if pr[1] == "35" && strings.HasPrefix(pr[0], "call:bufio.(*Scanner).Text(") && strings.HasSuffix(pr[0], ")[0]") && strings.Count(pr[0], "call:") == 2 {
+					okRaw = true
+				}
+			}
+		})
+	}
+	rawTest(rd, s)
+	// the test made by a predicate of the package applied to the line: isIgnored(row)
 	instrs(rd, func(in ssa.Instruction) {
-		bo, ok := in.(*ssa.BinOp)
-		if !ok || bo.Op != token.EQL {
+		cl, ok := in.(*ssa.Call)
+		if !ok {
 			return
 		}
-		l := s.expr(bo.X).String()
-		rr := s.expr(bo.Y).String()
-		for _, pr := range [][2]string{{l, rr}, {rr, l}} {
-			if pr[1] == "35" && strings.HasPrefix(pr[0], "call:bufio.(*Scanner).Text(") && strings.HasSuffix(pr[0], ")[0]") && strings.Count(pr[0], "call:") == 2 {
-				okRaw = true
-			}
+		h := cl.Call.StaticCallee()
+		if h == nil || h.Blocks == nil || h.Pkg != rd.Pkg || h == rd || len(h.Params) != len(cl.Call.Args) {
+			return
 		}
+		if res := h.Signature.Results(); res.Len() != 1 || !types.Identical(res.At(0).Type(), types.Typ[types.Bool]) {
+			return
+		}
+		hs := newSymb(h)
+		for i, p := range h.Params {
+			hs.subst[p] = s.expr(cl.Call.Args[i])
+		}
+		rawTest(h, hs)
 	})
 	r.check(okRaw, "COMMENT-RAW", where, "comment test on the raw line", c.pos(rd.Pos()), "a line is a comment iff byte 0 of the scanner's own line is '#'", "the '#' test is not applied to byte 0 of the scanner's line itself (e.g. it is applied after trimming): an indented data row whose first label is '#' is dropped, or an indented comment is parsed")
 }
@@ -561,7 +580,10 @@ func rulesGoString(c *Ctx, r *Report, f *ssa.Function) {
 		if fc.format == nil || *fc.format != "{%s,%s}:%v,\n" || len(fc.args) != 3 {
 			continue
 		}
-		a0, a1, a2 := s.expr(fc.args[0]).String(), s.expr(fc.args[1]).String(), s.expr(fc.args[2]).String()
+		a0, a1, a2 := fc.sy.expr(fc.args[0]).String(), fc.sy.expr(fc.args[1]).String(), fc.sy.expr(fc.args[2]).String()
+		if os.Getenv("BIOCHECK_DEBUG") != "" {
+			fmt.Fprintln(os.Stderr, "GS line:", a0, "|", a1, "|", a2)
+		}
 		if strings.HasPrefix(a0, "call:align.charOrGap(") && strings.HasSuffix(a0, "[0]))") && strings.HasPrefix(a1, "call:align.charOrGap(") && strings.HasSuffix(a1, "[1]))") &&
 			strings.HasPrefix(a2, "call:align.SubstitutionMatrix.Get(P0, ") && strings.Contains(a2, "[0]), ") && strings.HasSuffix(a2, "[1]))") {
 			// all three index the same element of the sorted slice
